@@ -7,6 +7,7 @@
 #include <vector>
 #include <cstring>
 #include <cstdio>
+#include <cstdlib>
 
 inline std::vector<std::string> split(const std::string& s)
 {
@@ -43,5 +44,16 @@ inline std::string hex(const std::string& s)
 	return r;
 }
 // every result line is flushed at once so that a sanitizer abort loses nothing
+// a fresh scratch directory: below $VERIF_SCRATCH (made and removed by vlib.run_harness around every harness process) or /tmp
+inline std::string scratch_dir(const char *tag)
+{
+	const char *base(std::getenv("VERIF_SCRATCH"));
+	std::string t(std::string(base && *base ? base : "/tmp") + "/verif_" + tag + "_XXXXXX");
+	std::vector<char> b(t.begin(), t.end()); b.push_back(0);
+	const char *r(mkdtemp(&b[0]));
+	if (!r) { std::perror("mkdtemp"); std::exit(3); }
+	return r;
+}
+
 inline void out(const std::string& s) { std::fputs(s.c_str(), stdout); std::fputc('\n', stdout); std::fflush(stdout); }
 #endif
